@@ -138,6 +138,11 @@ func batch(res *evid.Result, bi int, root string) {
 
 	for _, v := range vs {
 		pkg := v.File.Pkg
+		type pending struct {
+			name, key, what string
+			w                map[string]any
+		}
+		var defaultCollisions []pending
 		for bidx, fn := range base.Funcs {
 			gi := v.Index(fn.Name)
 			if gi < 0 || v.Edits[gi] == nil {
@@ -170,7 +175,14 @@ func batch(res *evid.Result, bi int, root string) {
 					break
 				}
 				if fp.SetKey(a) == fp.SetKey(b) {
-					res.Violate("collision/"+pol+"/"+detail(ed), fmt.Sprintf("%s and its edit (%s: %q -> %q) behave differently on %s (%s vs %s) but have identical fingerprints under the %s policy", fn.Name, ed.Kind, ed.Before, ed.After, nexec.InputDesc(fn.Sig, vec), oa, ob, pol), witness())
+					what := fmt.Sprintf("%s and its edit (%s: %q -> %q) behave differently on %s (%s vs %s) but have identical fingerprints under the %s policy", fn.Name, ed.Kind, ed.Before, ed.After, nexec.InputDesc(fn.Sig, vec), oa, ob, pol)
+					if pol == "default" {
+						// the difference may still be due only to literals the default policy abstracts
+						// (e.g. a negated test whose two branches differ in a string): decided by execution
+						defaultCollisions = append(defaultCollisions, pending{fn.Name, "collision/" + pol + "/" + detail(ed), what, witness()})
+						break
+					}
+					res.Violate("collision/"+pol+"/"+detail(ed), what, witness())
 					break // the default policy abstracts more: one report per pair
 				}
 			}
@@ -179,8 +191,28 @@ func batch(res *evid.Result, bi int, root string) {
 				res.Sample(map[string]any{"function": fn.Name, "edit": ed, "observed_P": oa, "observed_Q": ob})
 			}
 		}
+		if len(defaultCollisions) > 0 {
+			var names []string
+			for _, pc := range defaultCollisions {
+				names = append(names, pc.name)
+			}
+			lo := pairs.LiteralOnly(filepath.Join(dir, "star-"+pkg), base, v, names)
+			for _, pc := range defaultCollisions {
+				only, decided := lo[pc.name]
+				switch {
+				case !decided:
+					res.Inconcl(1)
+					res.Count("default_collision_undecided", 1)
+				case only:
+					res.Count("default_collision_literal_only_exempt", 1)
+				default:
+					res.Violate(pc.key, pc.what+" (the two still behave differently after every abstracted literal was replaced by a canonical one)", pc.w)
+				}
+			}
+		}
 	}
 
+	_ = 0
 	// collision hunting across different functions of the base file
 	for _, pol := range []string{"keepall", "default"} {
 		groups := map[string][]int{}
